@@ -36,6 +36,11 @@ CHECKS.update({
                 text="For evolventDensity 2..12 x dimension 2..5 (random boxes/objectives, solvers created in shuffled density order) every point passed to the objective must be lower + (2j+1)(upper-lower)/2^(m+1) for an integer j in range: a centre of the density-m grid is a centre of no other density, so both a coarser and a finer effective density are rejected." + SOLVER_NOTE),
 })
 
+CHECKS.update({
+    "C16": dict(level="fault_enumeration", design="4/C16", technique="fault enumeration: every evaluation index of every base run x exception types executed on the real solver, each run validated by TLC against AGPTrace.tla; AGP.tla explores the fault action exhaustively at design level",
+                text="For each base run EVERY evaluation index k = 2..T is used as a fault position (exception type rotating over positions, a few positions per base with all eight types incl. KeyboardInterrupt, SystemExit, GeneratorExit and a custom BaseException; Solve entered directly or after DoGlobalIteration batches; with and without a listener). Each faulted run of the real solver is recorded and validated by TLC: Solve returns, reported trial count / best point / best value are those of the k-1 completed trials, and the full public snapshot of the search information equals the specification's record of exactly those trials (ordering, links, lengths, images, values; the failed point absent). AGP.tla checks the same clauses in every state of an exhaustive exploration in which the objective may raise at any evaluation, and termination of Solve under faults." + SOLVER_NOTE),
+})
+
 NOT_YET = {
 }
 
